@@ -7,7 +7,8 @@ from numbers import Rational
 from . import common as C
 
 PROPERTY = 'C07'
-BUDGET = {'quick': 200, 'thorough': 1500}
+BUDGET = {'quick': 200, 'thorough': 400}
+GLOBAL_BUDGET = {'quick': 420, 'thorough': 1500}
 LAST_CONFIG_INFO = {}
 
 META = {
@@ -354,11 +355,11 @@ def jobs(tier, seed):
     rng = C.rng_for(seed, 'c07')
     maxlen = 3 if tier == 'quick' else 4
     shapes = [list(map(list, s)) for s in HAND_SHAPES]
-    shapes += [list(map(list, _rand_shape(rng, maxlen))) for _ in range(60 if tier == 'quick' else 600)]
+    shapes += [list(map(list, _rand_shape(rng, maxlen))) for _ in range(60 if tier == 'quick' else 300)]
     out = []
     for ch in C.chunks(shapes, 16):
         out.append({'fn': 'single', 'cfg': {'shapes': ch}})
-    npairs = 150 if tier == 'quick' else 1500
+    npairs = 150 if tier == 'quick' else 600
     pairs = [[rng.choice(shapes), rng.choice(shapes)] for _ in range(npairs)]
     # pairs that are equal by construction in different spellings
     pairs += [[[['x', 1], ['km', 1]], [['y', 1], ['m', 1]]], [[['N', 1]], [['kg', 1], ['m', 1], ['s', -2]]],
